@@ -106,13 +106,40 @@ def run_impl(sc):
     from statemachine import State, StateMachine
     from statemachine.exceptions import InvalidStateValue, TransitionNotAllowed
     n = len(sc["values"])
+    try:      # the library's process-wide signature cache is keyed by qualified name (D7): start empty
+        from statemachine.signature import SignatureAdapter
+        fc = SignatureAdapter.from_callable
+        getattr(fc, "__func__", fc).clear_cache()
+    except Exception:  # noqa: BLE001
+        pass
     with warnings.catch_warnings():
         warnings.simplefilter("ignore")
-        states = [State(value=(None if sc["values"][i] is None else pyv(sc["values"][i])),
+        dup = sc.get("dup_names") or []          # states that share one display name
+        states = [State(*(["Same name"] if i in dup else []),
+                        value=(None if sc["values"][i] is None else pyv(sc["values"][i])),
                         initial=(i == sc["initial"])) for i in range(n)]
         body = {f"s{i}": st for i, st in enumerate(states)}
-        for (a, e, t) in sc["trans"]:
-            states[a].to(states[t], event=f"e{e}")
+        mbox = {}
+        for tr in sc["trans"]:
+            a, e, t = tr[:3]
+            internal = bool(tr[3]) if len(tr) > 3 else False
+            wr = tr[4] if len(tr) > 4 else None
+            kw = {}
+            if internal and a == t:
+                kw["internal"] = True
+            if wr is not None:
+                # while the transition runs, an `on` callback writes another valid value into the model's field
+                def writer(wr=wr):
+                    setattr(mbox["sm"].model, sc["field"], state_value(sc, wr))
+                if sc.get("async_cb"):
+                    async def write_async(wr=wr, writer=writer):
+                        writer()
+                    kw["on"] = write_async
+                else:
+                    def write_plain(wr=wr, writer=writer):
+                        writer()
+                    kw["on"] = write_plain
+            states[a].to(states[t], event=f"e{e}", **kw)
         M = type(StateMachine)("M", (StateMachine,), body)
         model = make_model(sc)
         if sc["stored"] is not None and model is not None:
@@ -139,6 +166,9 @@ def run_impl(sc):
         obs = []
         try:
             sm = M(model, **kw)
+            mbox["sm"] = sm
+            if sc.get("async_cb"):
+                sm.activate_initial_state()
             obs.append(observe(0))
         except InvalidStateValue:
             obs.append(observe(1))
@@ -216,7 +246,7 @@ def opt(x, f=str):
 
 def coq_case(sc, obs):
     vs = "[" + "; ".join(cq_val(model_value(sc, i)) for i in range(len(sc["values"]))) + "]"
-    ts = "[" + "; ".join(f"({a}, {e}, {t})" for a, e, t in sc["trans"]) + "]"
+    ts = "[" + "; ".join(f"({x[0]}, {x[1]}, {x[2]})" for x in sc["trans"]) + "]"
     sv = "None" if sc["start"] is None else f"(Some {cq_val(ref_value(sc, sc['start']))})"
     st0 = "None" if (sc["stored"] is None or sc["shape"] == "none") else f"(Some {cq_val(ref_value(sc, sc['stored']))})"
     ops = []
@@ -256,6 +286,17 @@ def gen_case(rng):
     for s in range(n):
         if s != initial:
             trans.append([initial, ne, s])
+    # some transitions have an `on` callback that writes another valid value into the field while the
+    # transition runs (some of those are internal self-transitions); callbacks may be coroutines
+    async_cb = rng.random() < 0.3
+    if rng.random() < 0.4:
+        for tr in trans:
+            if rng.random() < 0.4:
+                tr += [1 if (tr[0] == tr[2] and rng.random() < 0.6) else 0, rng.randrange(n)]
+        if n >= 2 and rng.random() < 0.5:
+            st = rng.randrange(n)       # an internal self-transition whose callback writes another state's value
+            trans.append([st, rng.randrange(ne), st, 1, rng.choice([x for x in range(n) if x != st])])
+    dup_names = sorted(rng.sample(range(n), 2)) if (n >= 2 and rng.random() < 0.2) else []
     shape = rng.choice(SHAPES)
     stored = None
     if shape != "none" and rng.random() < 0.3:
@@ -284,7 +325,8 @@ def gen_case(rng):
             ops.append(["ext", {"raw": rng.choice(INVALID)}])
         else:
             ops.append(["ext", None])
-    return {"values": values, "initial": initial, "trans": trans, "shape": shape, "field": rng.choice(FIELDS),
+    return {"async_cb": async_cb and any(len(tr) > 3 for tr in trans), "dup_names": dup_names,
+            "values": values, "initial": initial, "trans": trans, "shape": shape, "field": rng.choice(FIELDS),
             "stored": stored, "start": start, "ops": ops}
 
 
